@@ -418,6 +418,17 @@ func runProxyCase(k *toks, o *out) {
 	pc.anyBarrier()
 	pc.anyBarrier()
 	base := runtime.NumGoroutine()
+	var ms0 runtime.MemStats
+	runtime.ReadMemStats(&ms0)
+	defer func() {
+		// memory obtained from the OS while the case ran, out of proportion to what was sent (C08)
+		var ms1 runtime.MemStats
+		runtime.ReadMemStats(&ms1)
+		if ms1.HeapSys > ms0.HeapSys+(768<<20) {
+			o.s("notes")
+			o.s(fmt.Sprintf("memory-balloon:%dMiB", (ms1.HeapSys-ms0.HeapSys)>>20))
+		}
+	}()
 	// ---- events
 	for e := 0; e < nev && !k.bad; e++ {
 		kind := k.str()
